@@ -73,7 +73,7 @@ BATTERY = [
     ("gb_split_out", lambda d: d.groupby("k").g.sum(split_out=2) if not isinstance(d, pd.DataFrame) else d.groupby("k").g.sum(), 0, 1),
     ("gb_cat", lambda d: d.groupby("c", observed=True).g.sum(), 0, 1), ("gb_str", lambda d: d.groupby("s").g.count(), 0, 1),
     ("gb_transform", lambda d: d.groupby("k").g.transform("sum"), 0, 1), ("gb_apply", lambda d: d.groupby("k").g.apply(_gb_apply), 0, 1),
-    ("gb_cumsum", lambda d: d.groupby("k").g.cumsum(), 1, 1), ("gb_cumcount", lambda d: d.groupby("k").g.cumcount(), 1, 1), ("gb_shift", lambda d: d.groupby("k").g.shift(1), 0, 1),
+    ("gb_cumsum", lambda d: d.groupby("k").g.cumsum(), 1, 1), ("gb_cumcount", lambda d: d.groupby("k").g.cumcount(), 1, 1), ("gb_shift", lambda d: d.groupby("k").g.shift(1), 0, 1, "sorted_unique_index"),
     ("cumsum", lambda d: d[NUMS].cumsum(), 1, 1), ("cumprod", lambda d: d[["i", "g"]].cumprod(), 1, 1), ("cummax", lambda d: d[NUMS].cummax(), 1, 1), ("cummin", lambda d: d[NUMS].cummin(), 1, 1),
     ("s_cumsum", lambda d: d.f.cumsum(), 1, 1), ("s_cummax", lambda d: d.g.cummax(), 1, 1), ("s_cumsum_int", lambda d: d.i.cumsum(), 1, 1),
     ("shift1", lambda d: d.f.shift(1), 1, 1), ("shift_m1", lambda d: d.f.shift(-1), 1, 1), ("shift2", lambda d: d[NUMS].shift(2), 1, 1), ("shift_m2", lambda d: d.g.shift(-2), 1, 1),
@@ -158,6 +158,7 @@ def cases(tier, seed):
     # canaries for listed findings
     yield {"kind": "one", "op": "cumsum", "n": 6, "tseed": 3, "index": "range", "canary": "cumsum-all-nan-partition"}
     yield {"kind": "two", "op": "assign_other", "nl": 4, "nr": 4, "tseed": 1, "canary": "assign-differently-ranged"}
+    yield {"kind": "one", "op": "gb_shift", "n": 4, "tseed": 4, "index": "int_dup", "canary": "gb-shift-duplicated-index"}
     for n in range(4, c["nmax"] + 1):
         for name in BAT:
             for j, index in enumerate(["range", "int_dup"] if n <= 5 else ["range"]):
@@ -197,7 +198,7 @@ def run_one(case):
     n = case["n"]
     rng = derive_rng("C02", case["tseed"], name, n)
     df = small_table(n, case["tseed"], case.get("index", "range"))
-    if case.get("canary"):
+    if case.get("canary") == "cumsum-all-nan-partition":
         df = df.copy()
         df.loc[df.index[2:4], "f"] = np.nan
     counters, sets, nt = {}, {"operators_computed": []}, []
@@ -214,7 +215,7 @@ def run_one(case):
                 continue
             if req in ("known",) and mode != "known":
                 continue
-            if req and req.startswith("sorted") and not sorted_unique:
+            if req and req.startswith("sorted") and not sorted_unique and not case.get("canary"):
                 continue
             try:
                 src = _src(df, cuts, mode)
@@ -249,7 +250,7 @@ def run_one(case):
                 nt.append(f"{name}|{n}|{case['tseed']}|{cuts}|{mode}")
             d = compare(got, exp, order=bool(order), index=bool(index), dtypes=False)
             if d and not viol:
-                viol = dict(d, oracle="pandas", op=name, cuts=cuts, divisions=mode, n=n, ops=[name],
+                viol = dict(d, oracle="pandas", op=name, cuts=cuts, divisions=mode, n=n, ops=[name], index_sorted_unique=bool(sorted_unique),
                             all_nan_partition_column=nan_partition_column(df, cuts), has_empty_partition=has_empty,
                             src=[f"table n={n} seed={case['tseed']} index={case.get('index')}; cuts={cuts} divisions={mode}; query={name}"])
                 viol_case = dict(case, only=[cuts, mode])
